@@ -1,7 +1,7 @@
 """C07: integer arithmetic.  P: Props/C07.v over the go2v translation of py/int.go + IntDispatch
 model.  T: model vs implementation on a boundary lattice (Coq vm_compute), oracle = exact ints."""
 import itertools, json, os, random, concurrent.futures
-import vlib
+import vlib, pydiff
 
 THEOREMS = ["C07_binop", "C07_unop", "C07_pow3", "C07_guards"]
 BINOPS = {"add": "OAdd", "sub": "OSub", "mul": "OMul", "floordiv": "OFloorDiv", "mod": "OMod",
@@ -177,6 +177,29 @@ def coq_check(name, sample):
     v = vlib.parse_coq_value("M " + out[out.find("M ="):].replace("M =", " =", 1)) if "M =" in out else None
     return v, out[-500:]
 
+TEXT_PROGRAM = """def t(f):
+    try:
+        print(repr(f()))
+    except ValueError: print('ValueError')
+    except TypeError: print('TypeError')
+    except OverflowError: print('OverflowError')
+strs = ['0', '00', '000', '1', '01', '-1', '+1', ' 12 ', '0x1f', '0X1F', '0x01', '0o17', '0O17', '0o017', '0b101', '0B101', '0b01', '0b2', '0o8', '0xg', '0x', '0b', '0o', 'ff', 'FF', 'z', 'Zz',
+        '9223372036854775807', '9223372036854775808', '-9223372036854775808', '-9223372036854775809', '123456789012345678901234567890', '0x' + 'f' * 20, '1' * 40, '', ' ', '-', '+', '--1', '1-', '1.0', '1e3', '0x-1', '-0x1f', '+0b11', '- 1']
+for b in (0, 2, 8, 10, 16, 36, 7):
+    for s in strs:
+        t(lambda: int(s, b))
+for s in strs:
+    t(lambda: int(s))
+for b in (1, -1, 37):
+    t(lambda: int('1', b))
+ns = [0, 1, -1, 7, 8, 255, 256, -255, 2**31 - 1, 2**31, 2**32, 2**62, 2**63 - 1, 2**63, -2**63, -2**63 - 1, 2**64, 2**64 + 1, 10**18, 10**19, 10**30, -10**30, 2**200 - 1, -(2**200)]
+for n in ns:
+    print(str(n), repr(n), hex(n), oct(n), bin(n), int(str(n)) == n, int(hex(n), 16) == n, int(oct(n), 8) == n, int(bin(n), 2) == n, int(hex(n), 0) == n, int(oct(n), 0) == n, int(bin(n), 0) == n, eval(repr(n)) == n)
+print(0x1F, 0o17, 0b101, 0XfF, 0O7, 0B1, 9223372036854775808, -9223372036854775809, 0xffffffffffffffffffff, 0o7777777777777777777777777, 0b1111111111111111111111111111111111111111111111111111111111111111111)
+print('%d %s %x %o %X' % (255, 255, 255, 255, 255), '%5d|%-5d|%05d' % (42, 42, 42))
+print(int(3.9), int(-3.9), int(True), int('  7  '), float(2**63), int(float(2**63)) == 2**63)
+"""
+
 def check(res):
     tier, seed = res.tier, res.seed
     res.trusted = vlib.COMMON_TRUST + [
@@ -219,6 +242,13 @@ def check(res):
             known_hit.setdefault(hit["id"], (op, reps, vals, o, exp))
         else:
             mismatches.append((op, reps, vals, o, exp))
+    # text conversions (int(s, base), str/hex/oct/bin, literals, % formatting) against CPython
+    ta = pydiff.run_impl([TEXT_PROGRAM])[0]; tb = pydiff.run_ref([TEXT_PROGRAM])[0]
+    tla = ta.get("out", "").split("\n"); tlb = tb.get("out", "").split("\n")
+    text_bad = [(k, x, y) for k, (x, y) in enumerate(zip(tla + ["<missing>"] * (len(tlb) - len(tla)), tlb)) if x != y]
+    if ta.get("panic") or ta.get("crash") or ta.get("err") != tb.get("err"): text_bad.append((-1, str((ta.get("err"), ta.get("msg"), ta.get("panic") or ta.get("crash"))), str(tb.get("err"))))
+    for k, x, y in text_bad[:10]:
+        mismatches.append(("text-conversion", ("text",), (k,), x, y))
     for fid, (op, reps, vals, o, exp) in known_hit.items():
         f = [x for x in findings if x["id"] == fid][0]
         res.known.append("%s: %s (e.g. %s %s -> %s, Python: %s)" % (fid, f["input_class"], op, list(vals), o, exp))
